@@ -191,6 +191,16 @@ def run_public(case):
             return out
         d = oqupy.compute_dynamics(system, rho0, process_tensor=pt, start_time=start, progress_type="silent")
         _check_axis(out, "compute_dynamics", d.times, start, dt, n)
+        if n >= 3:
+            dp = oqupy.compute_dynamics(system, rho0, process_tensor=pt, start_time=start, num_steps=n - 1,
+                                        progress_type="silent")
+            if _check_axis(out, "compute_dynamics/prefix", dp.times, start, dt, n - 1):
+                out.check_close("compute_dynamics/prefix/states", np.array(dp.states), np.array(d.states)[:n], 1e-12)
+            dp1 = oqupy.compute_dynamics(system, rho0, process_tensor=pt, start_time=start, num_steps=n - 1,
+                                         record_all=False, progress_type="silent")
+            wantp = start + (n - 1) * dt
+            if len(dp1.times) != 1 or abs(dp1.times[0] - wantp) > 4 * np.spacing(max(abs(wantp), 1.0)):
+                out.fail("compute_dynamics/prefix/record_all=False/label", f"times {list(dp1.times)!r} expected [{wantp!r}]")
         d1 = oqupy.compute_dynamics(system, rho0, process_tensor=pt, start_time=start, record_all=False,
                                     progress_type="silent")
         out.label("record_all=False")
